@@ -250,7 +250,15 @@ def run_lambda_constants(ctx, n):
     # check_ast correspondence on hand-built lambdas with all constant kinds
     import types
 
-    consts = [1, 1.5, "s", b"b", True, None, ..., 1j, (1, 2), [1], {"a": 1}, types, int, len, object(), frozenset()]
+    import decimal
+    import fractions
+
+    class _IntLike(int):
+        pass
+
+    # numbers that are not the builtin number types (Fraction, Decimal), sets, ranges, bytearray: not transportable
+    consts = [1, 1.5, "s", b"b", True, None, ..., 1j, (1, 2), [1], {"a": 1}, types, int, len, object(), frozenset(),
+              fractions.Fraction(1, 3), decimal.Decimal("1.5"), range(3), bytearray(b"x"), {1, 2}, float("inf"), -0.0, 10 ** 30]
     for c in consts:
         lam = ast.Lambda(args=ast.arguments(posonlyargs=[], args=[ast.arg(arg="e")], kwonlyargs=[], kw_defaults=[], defaults=[]),
                          body=ast.Call(func=ast.Attribute(value=ast.Name("e", ast.Load()), attr="f", ctx=ast.Load()),
